@@ -212,6 +212,34 @@ def paren_rule(chk, fx):
     chk.floor('conditional-expression templates of the transpiler', n, 2)
 
 
+def kwname_rule(chk, fx):
+    chk.rule('C17-kwname', 'the two sides of a keyword argument agree on the Python name: PyScriptGenerator::transpile_params names a parameter with transpile_name (which mangles local '
+                           'names with their definition site, `y_L1_C6`), so transpile_args must name the keyword of a call to an Erg subroutine through the same function — a name built '
+                           'from the keyword text alone (`y__`) matches no parameter')
+    fp = fx.fn(TR, 'PyScriptGenerator::transpile_params')
+    fa = fx.fn(TR, 'PyScriptGenerator::transpile_args')
+    namers = {'transpile_name', 'transpile_ident'}
+    param_named = any(T.last_seg(T.callee(c) or c.get('n') or '') in namers for c in T.calls(fp['body']))
+    if not chk.need(param_named, 'transpile_params no longer names parameters through transpile_name / transpile_ident'):
+        return
+    # the template that writes `name=value` for a keyword argument
+    kw_sites = []
+    for n in T.walk(fa['body']):
+        if n.get('k') == 'Tup' and any('format_args' in m or 'FormatLiteral' in m for m in (n.get('m') or [])):
+            if any('keyword' in T.show(a) for a in n['a']):
+                kw_sites.append(n)
+    if not chk.need(kw_sites, 'transpile_args: the template writing a keyword argument was not found'):
+        return
+    for n in kw_sites:
+        through = any(T.last_seg(T.callee(c) or c.get('n') or '') in namers for a in n['a'] if 'keyword' in T.show(a) for c in T.calls(a))
+        if through:
+            chk.ok('C17-kwname', 'transpile_args')
+        else:
+            chk.bad('C17-kwname', 'PyScriptGenerator::transpile_args', 'keyword-text', 'transpile_args writes the keyword of a call from its text (`%s`) while transpile_params mangles the '
+                    'parameter with its definition site: `p! x, y := 10 = ..` / `p! 1, y:=5` gives `def p..(x_L1_C3,y_L1_C6 = ..)` and the call `(p..)(Nat(1),y__=Nat(5),)`' %
+                    next(T.show(a)[:40] for a in n['a'] if 'keyword' in T.show(a)), TR, n.get('l'))
+
+
 def prelude_rule(chk, fx):
     import itertools
     from sa.kinds import prelude as P
@@ -382,5 +410,6 @@ def run(chk):
     fresh_rule(chk, fx)
     paren_rule(chk, fx)
     prelude_rule(chk, fx)
+    kwname_rule(chk, fx)
     return ('Table rule across crates: the characters produced by the escape arms of the three string lexers (typed HIR) against the replace chain of PyScriptGenerator::escape_str. '
             'Behavioural equivalence of the transpiled script and the bytecode is not decided.'), {'exhaustive': True}
